@@ -672,6 +672,22 @@ Lemma bootstrap_skeleton_ok :
                         "self.bootstrap_results[b] = x_br"]%string.
 Proof. reflexivity. Qed.
 
+(* ================================================================== the engine holds the estimation data after a bootstrap run, faulty or not *)
+Lemma engine_restored : forall (D : Type) (e : D) rs, fst (bootstrap_engine true e rs) = e.
+Proof. intros D e rs. induction rs as [|[d [|]] rs IH]; cbn; auto. Qed.
+
+Lemma engine_restored_generated : forall (D : Type) (e : D) rs, fst (bootstrap_engine bootstrap_restores_in_finally e rs) = e.
+Proof. exact engine_restored. Qed.
+
+Lemma engine_not_restored_refuted : exists (e : nat) rs, fst (bootstrap_engine false e rs) <> e.
+Proof. exists 0%nat, [(1%nat, Fault)]. cbn. discriminate. Qed.
+
+Lemma bootstrap_finally_ok :
+  bootstrap_finally =
+  ["self._saving_suspended = False";
+   "if self.database.is_panel(): self.theC.setDataMap(self.database.individualMap) else: self.theC.setData(self.database.data)"]%string.
+Proof. reflexivity. Qed.
+
 (* ================================================================== objects used by the non-vacuity examples of Properties/C07.v *)
 Definition ex_ext : string -> unit -> objective -> vec -> option (list bound) -> opt_result :=
   fun _ _ _ _ _ => mkOpt [1/2] true.
